@@ -17,7 +17,7 @@ REQUIRED_FEATURES = ["empty_batch", "only_non_keys", "non_key_colliding", "non_k
                      "array_init", "large_key", "cross_history_comparisons", "depth2", "huge_batch", "ndarray_batch", "exhaustive_small_batches"]
 BOUNDS = {"quick": "10 key sets (1-5 keys, and 10 / 17 keys) x moduli {default,1,2,3,4,64} x initial {default, 0, 4, per-key array} (+ int8/uint8/uint64/python-list keys, int32 counts on 4 sets); "
                    "all count histories of depth <= 2 over ~32 batches and depth 3 with the third batch from the 12 simplest (empty, every single universe element, ordered pairs over keys / colliding and "
-                   "free non-keys, heavy repetition, only non-keys, large keys)",
+                   "free non-keys, heavy repetition, only non-keys, large keys); every batch of <= 4 samples over 9 symbols on 3 tables with buckets of 3/2/1/0 keys; ndarray batches (one of them as a strided view), a 70 006-sample batch",
           "thorough": "12 key sets, depth 3 over the full batch alphabet"}
 
 U = [0, 1, 2, 3, 5, 7, -1, 2 ** 62, 2 ** 62 + 1, 12, 15, 44]
